@@ -302,7 +302,7 @@ def run(pid, tier):
     # (b)
     hb = h_placeholders(1 if q else 2)
     hb.models_cls = lambda: RunnerModels(prog)
-    resb = e2.run_harness(prog, hb, keep_raw=True)
+    resb = e2.run_with_raw(prog, hb)
     for model, r in resb.raw_witnesses[:6]:
         expr = "".join(chr(e2.model_int(model, c)) for c in r.ctx.notes["expr"])
         if "'" in expr:
